@@ -45,7 +45,7 @@ PURE = {
     ),
     'C04': dict(
         module='Properties.C04', file='Properties/C04.v',
-        diffs=[QUEUES_DIFF], families=['order'], quick_episodes=400, thorough_episodes=5000,
+        diffs=[QUEUES_DIFF], families=['order', 'persist'], quick_episodes=400, thorough_episodes=5000,
         params={'initialBufferCapacity': 1, 'chunkMaxCapacity': 1},
         footprint=['E', 'D', 'V', 'S', 'PV', 'H+', 'H-', 'HV', 'HPV', 'validator:'],
         oracle_kinds=['fifo.order', 'fifo.lost', 'fifo.enqueue-result', 'fifo.purge-values', 'heap.order', 'heap.lost', 'heap.enqueue-result', 'heap.purge-values'],
@@ -87,7 +87,8 @@ CONC = {
     'C02': dict(module='Properties.C02', file='Properties/C02.v', slices=['disp'],
                 families=['saturate', 'lifecycle', 'burst', 'pool', 'multiq', 'staleloop'],
                 quick_episodes=250, thorough_episodes=3000,
-                rule=SLICE_DISP_RULE + '; family staleloop: a directed schedule that holds the event loop right before its reservation across a Restart / Stop+Restart / Pause+Resume while its successor fills the limit',
+                native=dict(scenarios=['cpus'], rounds=1, thorough_rounds=1),
+                rule=SLICE_DISP_RULE + '; native mode: a concurrency value below 1 (configured, and set by TunePool) with GOMAXPROCS raised above the number of CPUs; family staleloop: a directed schedule that holds the event loop right before its reservation across a Restart / Stop+Restart / Pause+Resume while its successor fills the limit',
                 trusted_base=TB_CONC,
                 assumptions=['the reservation step carries the value its own Add returned and the limit the thread loads next; that the code hands back a reservation above that limit is part of the replayed protocol (no assumption that there is one event loop)',
                              'n < 1 means runtime.NumCPU() (config.go withSafeConcurrency; covered by the lifecycle model C14_tunepool_sets_concurrency)']),
@@ -97,8 +98,8 @@ CONC = {
                 rule=SLICE_DISP_RULE, trusted_base=TB_CONC,
                 assumptions=['"returns once its condition holds" (no missed wake-up) is a progress statement: decided by the exact-quiescence monitor (a barrier caller parked at rest is a violation) and C03',
                              'a bound queue\'s Len() is never negative and counts every element in it (C17_fifo_len_exact; priority queue: slice length under the lock; adapters: contract)']),
-    'C09': dict(module='Properties.C09', file='Properties/C09.v', slices=['disp'],
-                families=['lifecycle', 'lifeseq', 'pool', 'cancel', 'barriers', 'stopwindow'],
+    'C09': dict(module='Properties.C09', file='Properties/C09.v', slices=['disp', 'wake'],
+                families=['lifecycle', 'lifeseq', 'pool', 'cancel', 'barriers', 'stopwindow', 'resumebatch'],
                 quick_episodes=350, thorough_episodes=4000,
                 rule=SLICE_DISP_RULE, trusted_base=TB_CONC,
                 assumptions=['"all processed, in queue order, after Resume / Restart" combines C03 (progress) and C04 (order) with C09_status_store_keeps_queues']),
@@ -231,7 +232,7 @@ CONC = {
                 assumptions=['NumProcessing <= limit rests on the dispatcher reserving a slot only below the limit, with a single current event loop (C02)',
                              'metrics counters are single atomic adds (monitored, not modelled); Metrics().Reset() is excluded']),
     'C16': dict(module='Properties.C16', file='Properties/C16.v', slices=['job'],
-                families=['burst', 'lifecycle', 'cancel', 'ctxstop'],
+                families=['burst', 'lifecycle', 'cancel', 'ctxstop', 'batch'],
                 quick_episodes=350, thorough_episodes=4000,
                 rule=SLICE_JOB_RULE, trusted_base=TB_CONC,
                 assumptions=['jobs rebuilt by parseToJob from stored entries have no handle; their status word starts from whatever the entry says']),
